@@ -86,6 +86,28 @@ CHECKS = {
              "object, resume handler): at most one success; exactly one at quiescence for handled pre-existing objects without "
              "unfinished progress; none for objects first seen through the watch; none on deleting objects unless opted in.",
         design_ref='DESIGN.md §6 C14'),
+    'C04': dict(
+        technique="explicit-state search over object bodies with the real framework write operations as transitions, plus "
+                  "bounded-exhaustive input enumeration for the diff laws, against independent RFC 7386 / JSON-equality references",
+        text="(i)/(ii) breadth-first state graph: from 4 seed bodies every real write operation of the framework (progress store/"
+             "purge/touch, diff-base store, finalizer block/allow, result delivery) is applied the way a server applies it "
+             "(independent RFC 7386 merge) to depth 2/3 for every storage configuration (Smart default, Annotations with 3 prefixes "
+             "x v1/v2, Status x 2, Multi); on every edge the essence computed by the writer AND by every other configuration (another "
+             "Kopf operator) must be unchanged. (iii) single-field mutations: spec/payload/labels/annotations must change the essence, "
+             "status/system metadata must not. (iv) all ordered pairs of a universe of small JSON bodies: applying diff(a,b) to a gives "
+             "b; diff empty iff JSON-equal (booleans are not numbers; null member == absent); reduce() agrees with the diff of the "
+             "resolved fields. Two genuine defects found here were repaired (fix: commits).",
+        design_ref='DESIGN.md §6 C04'),
+    'C15': dict(
+        technique="bounded-exhaustive enumeration of handler declarations x object/old/new states on the real registries against an "
+                  "executable reading of docs/filters.rst, plus deviation-bounded closed-loop search for the stealth clause",
+        text="Every handler declaration over the criteria alphabet (9 handler kinds x label/annotation criteria {none,value,PRESENT,"
+             "ABSENT,callback} x field {none,spec.f,spec.g.h} x value/old/new criteria x when) is registered in a real registry and "
+             "queried with every relevant object/old/new state ({absent,'x','y',null parent,non-mapping parent} per field; "
+             "{absent,'x',''} per label/annotation) and cause reason; the selection must equal filters_ref. Duplicate registrations "
+             "are selected once per id. In the closed loop, objects matched by no handler must receive no write at all while matching "
+             "ones are handled. One documented-behaviour mismatch is recorded in known_findings.json.",
+        design_ref='DESIGN.md §6 C15'),
 }
 
 
